@@ -173,6 +173,8 @@ theorem nth0 (a b c : Py.V) : Py.nth [a, b, c] 0 = a := rfl
 theorem nth1 (a b c : Py.V) : Py.nth [a, b, c] 1 = b := rfl
 theorem nth2 (a b c : Py.V) : Py.nth [a, b, c] 2 = c := rfl
 
+theorem not_clean (v : Py.V) (h : Py.isExc v = false) : Py.not_ v = .bool (!Py.truthy v) := by
+  cases v <;> simp [Py.isExc] at h <;> rfl
 theorem isnot_bool (v : Py.V) (b : Bool) (h : Py.isExc v = false) : Py.isnot v (.bool b) = .bool (!Py.isb v (.bool b)) := by
   cases v <;> simp [Py.isExc] at h <;> rfl
 theorem cond_bool (b : Bool) (env : Py.Env) (effs : List Py.Eff) (x y : Py.H.Res) :
@@ -218,7 +220,7 @@ set_option hygiene false in
 /-- evaluation of the translated code on an environment of values: first the lemmas about values (so that the facts in scope
     apply), then the prelude unfolded -/
 macro "mt_norm" : tactic => `(tactic|
-  ((simp (config := { decide := true }) only [and_truthy, cond_clean, letv_ok, ret_ok, is_bool, isnot_bool, call0_ok (hv := hval), call2_ok (hv := hval), cond_bool, letv_bool, setattr_bool, setattr_strs,
+  ((repeat simp (config := { decide := true }) only [and_truthy, not_clean, cond_clean, letv_ok, ret_ok, is_bool, isnot_bool, call0_ok (hv := hval), call2_ok (hv := hval), cond_bool, letv_bool, setattr_bool, setattr_strs,
       upd_same, upd_other, not_bool, is_none_bool, isb_bool, nth_cons_zero, nth_cons_succ, bind_ok, ret_bool, or_bool, and_bool, fold, okVE,
       isExc_bool, isExc_none, Bool.false_eq_true, Bool.true_eq_false, if_true, if_false, Bool.not_true, Bool.not_false, Bool.or_false, Bool.or_true,
       Bool.and_true, Bool.and_false, Bool.false_or, Bool.true_or, Bool.true_and, Bool.false_and, beq_self_eq_true, *]);
@@ -257,11 +259,12 @@ macro "mt_loop" p:term : tactic => `(tactic|
          rw [upd_other _ _ _ _ n1, ham, d2]
        have hcl2 : ∀ b k, Py.isExc (Py.upd (ext "expr_matches" [Py.V.int idx, Py.V.strs []] e').2 (ckey idx) (Py.V.bool b) k) = false := fun b k =>
          clean_upd _ _ _ hcl rfl k
+       have hpl : ∀ b, Py.isExc (Py.upd (ext "expr_matches" [Py.V.int idx, Py.V.strs []] e').2 (Py.ikey "self.expressions" idx "[1]") (Py.V.bool b) "self.csvpath.line_monitor.physical_line_number") = false := fun b => hcl2 b _
        cases hvote : Py.isb (ext "expr_matches" [Py.V.int idx, Py.V.strs []] e').1 (Py.V.bool false) <;> cases fb <;> cases dm <;>
          (refine Exists.intro ?_ (Exists.intro ?_ ?_)
           rotate_left 2
           mt_norm
-          first | rfl | (constructor <;> rfl))
+          first | rfl | (constructor <;> rfl) | (split <;> (first | (constructor <;> rfl) | (have h1x := hpl true; have h2x := hpl false; simp_all [Py.isExc]))))
    case hk =>
      intro idx locs fb e' effs' hinv' hl
      obtain ⟨d1, d2, d3, d4⟩ := hinv'
@@ -281,7 +284,8 @@ macro "mt_loop" p:term : tactic => `(tactic|
          case h6 =>
            mt_norm
            first | rfl | (constructor <;> rfl)
-       · refine Exists.intro ?w7 ?h7
+       · have hx' : Py.truthy ((ext "clear_errors" [] e').2 "self.csvpath.explain") = false := by simpa using hx
+         refine Exists.intro ?w7 ?h7
          case h7 =>
            mt_norm
            first | rfl | (constructor <;> rfl)
